@@ -82,6 +82,12 @@ class Equation:
         """
         return self.in_update
 
+    def get_term_in_update(self, term: int, factor: str) -> bool:
+        """
+        Returns True if the given factor of the given term is used in the update
+        """
+        return self.in_update[term][self.factor_pos[term][factor]]
+
     def get_output(self) -> Tensor:
         """
         Get the output tensor
@@ -157,28 +163,35 @@ class Equation:
         self.term_vars: List[List[str]] = []
 
         self.factor_order: Dict[str, Tuple[int, int]] = {}
+        self.factor_pos: List[Dict[str, int]] = []
         self.in_update: List[List[bool]] = []
         for i, term in enumerate(self.equation.find_data("times")):
             self.term_tensors.append([])
             self.term_vars.append([])
+            self.factor_pos.append({})
             self.in_update.append([])
 
             for var in term.find_data("var"):
                 self.term_vars[-1].append(ParseUtils.next_str(var))
                 self.factor_order[self.term_vars[-1][-1]
                                   ] = (i, len(self.in_update[-1]))
+                self.factor_pos[-1][self.term_vars[-1][-1]] = len(
+                    self.in_update[-1])
                 self.in_update[-1].append(True)
 
             for tensor in term.find_data("tensor"):
                 self.term_tensors[-1].append(ParseUtils.next_str(tensor))
                 self.factor_order[self.term_tensors[-1][-1]
                                   ] = (i, len(self.in_update[-1]))
+                self.factor_pos[-1][self.term_tensors[-1][-1]] = len(
+                    self.in_update[-1])
                 self.in_update[-1].append(True)
 
         # Find all factors intersected together
         for i, take in enumerate(self.equation.find_data("take")):
             self.term_tensors.append([])
             self.term_vars.append([])
+            self.factor_pos.append({})
             self.in_update.append([])
 
             for child in take.children:
@@ -187,6 +200,8 @@ class Equation:
                         self.term_vars[-1].append(ParseUtils.next_str(child))
                         self.factor_order[self.term_vars[-1][-1]] = (
                             len(self.term_tensors) - 1, len(self.in_update[-1]))
+                        self.factor_pos[-1][self.term_vars[-1][-1]] = len(
+                            self.in_update[-1])
                         self.in_update[-1].append(False)
 
                     elif child.data == "tensor":
@@ -194,6 +209,8 @@ class Equation:
                             ParseUtils.next_str(child))
                         self.factor_order[self.term_tensors[-1][-1]] = (
                             len(self.term_tensors) - 1, len(self.in_update[-1]))
+                        self.factor_pos[-1][self.term_tensors[-1][-1]] = len(
+                            self.in_update[-1])
                         self.in_update[-1].append(False)
 
                     else:
